@@ -87,6 +87,7 @@ let site_of (c : string) : string =
   | "tfunc" :: _ -> "templater-function-arguments"
   | "vsrc" :: _ :: _ :: k :: _ -> "variable-source-" ^ k ^ "-Init"
   | "sdesc" :: _ -> "scenario-ReadAmmoConfig"
+  | "popt" :: ptype :: _ -> "provider-options-" ^ String.map (fun ch -> if ch = '/' then '-' else ch) ptype
   | "ctag" :: typ :: _ -> "config-value-ResolveCustomTags-" ^ typ
   | ["indext"; _; _; len; _] -> if len = "0" then "extractFromSlice-empty-list" else "extractFromSlice"
   | "jbad" :: pre :: _ -> if pre = "1" then "provider-json-preload" else "provider-json-fullscan"
@@ -503,9 +504,118 @@ let rec predict_inner (c : string) (obs : string) : string * string * bool =
         | VErr -> "newerr"
         | VPanic -> "panic") in
       safe p
-  | ["sfile"; _; _; _] ->
-      (* third-party HCL / YAML parsers behind the real provider constructor: fuzzed, not modelled *)
-      safe obs
+  | ["sfile"; ext; _; text] ->
+      (* the syntax stage of config.ReadAmmoConfig.  The parser libraries are oracles: `hcl` = hclparse.ParseHCL
+         reports error diagnostics, `yaml` = yaml.Unmarshal into a map fails.  Specification: a text that is not
+         HCL / YAML at all is rejected with an error of the constructor, whatever the parser recovered from it
+         (theorem C13_syntax_error_rejected); what follows the syntax stage (gohcl, mapstructure) is fuzzed only *)
+      let fmt = sfmt_of ext in
+      let textb = bytes_of_hex text in
+      let valid =
+        (match fmt with
+         | FOther -> Some false
+         | FHcl -> (match ask "hcl" textb with Some "1" -> Some true | Some "0" -> Some false | _ -> None)
+         | _ -> (match ask "yaml" textb with Some "1" -> Some true | Some "0" -> Some false | _ -> None)) in
+      (match valid with
+       | None -> safe "oracle-miss"
+       | Some v ->
+           let stage = read_description true fmt
+               (fun _ -> { hp_errors = not v; hp_file = Some () }) (fun _ -> if v then Some () else None)
+               (fun () -> VOk []) textb in
+           (match stage with
+            | VErr ->
+                let st = status_of obs in
+                ("newerr",
+                 (if bad_status st then "BAD:" ^ site_of c ^ " outcome " ^ st
+                  else if st <> "newerr" then "BAD:" ^ site_of c ^ " syntax-error-not-rejected outcome " ^ st
+                  else "ok"), true)
+            | VPanic -> safe "panic"
+            | VOk _ -> safe obs))
+  | "popt" :: ptype :: file :: opts ->
+      (* an ammo provider built from the `ammo` section of a pool config through its plugin factory, with
+         numeric options at the extremes.  What the config decoder (viper + mapstructure) makes of a YAML scalar
+         for a Go int / uint / bool field is an oracle (`optv`); the model decides from the numbers. *)
+      let fileb = bytes_of_hex file in
+      let opts = List.map (fun o -> match String.index_opt o '=' with
+        | Some i -> (String.lowercase_ascii (String.sub o 0 i) (* viper lower-cases keys *), string_of_hexs (String.sub o (i + 1) (String.length o - i - 1)))
+        | None -> (o, "")) opts in
+      let http = List.mem ptype ["http/json"; "uri"; "uripost"; "raw"] in
+      let scen = List.mem ptype ["http/scenario"; "grpc/scenario"] in
+      let hexs (x : string) = String.concat "" (List.map (fun ch -> Printf.sprintf "%02x" (Char.code ch)) (List.init (String.length x) (String.get x))) in
+      let optv (kind : char) (text : string) : [`Miss | `Rej | `Panic | `Val of string] =
+        (match ask "optv" (bytes_of_hex (hexs (String.make 1 kind ^ text))) with
+         | None -> `Miss
+         | Some a -> (match split_blank a with ["1"; v] -> `Val v | ["P"] -> `Panic | _ -> `Rej)) in
+      let known_key k =
+        List.mem k ["limit"; "passes"; "maxammosize"; "continueonerror"] || (http && k = "preload") in
+      let num_kind k = if k = "maxammosize" || ptype = "grpc/json" then 'i' else 'u' in
+      let vals = List.map (fun (k, v) ->
+        if not (known_key k) then (k, `Rej)
+        else if k = "preload" || k = "continueonerror" then (k, optv 'b' v)
+        else (k, optv (num_kind k) v)) opts in
+      let get k = (match List.assoc_opt k vals with Some (`Val v) -> z_of_string v | _ -> z_of_int 0) in
+      let getb k = (match List.assoc_opt k vals with Some (`Val v) -> v = "1" | _ -> false) in
+      let k = k_acq in
+      let zn z = n_of_zt (zt_of_z z) in
+      let p =
+        if List.exists (fun (_, v) -> v = `Miss) vals then "oracle-miss"
+        else if List.exists (fun (_, v) -> v = `Panic) vals then "panic"
+        else if List.exists (fun (_, v) -> v = `Rej) vals then "newerr"
+        else if http then
+          (match http_provider_opts false (get "limit") (get "passes") (get "maxammosize") with
+           | VErr -> "newerr"
+           | VPanic -> "panic"
+           | VOk _ ->
+               let cfg = { c_limit = zn (get "limit"); c_passes = zn (get "passes") } in
+               (match ptype with
+                | "uri" -> print_run bld_entry k (uri_decode url_parse max_token cfg (nat_of_int k) fileb)
+                | "uripost" -> print_run bld_entry k (uripost_decode url_parse cfg (nat_of_int k) fileb)
+                | "raw" -> print_run bld_raw k (raw_decode cfg (nat_of_int k) fileb)
+                | _ ->
+                    (match json_file fileb with
+                     | JMiss -> "oracle-miss"
+                     | JTokErr | JArr (false, _) -> "newerr"
+                     | (JArr (true, toks) | JStream (_, toks)) as jf ->
+                         let form = (match jf with JStream (eof, _) -> JFStream (if eof then JEof else JErr) | _ -> JFArray) in
+                         (* fullscan counts the limit down in unary: a limit beyond the k deliveries looked at acts as k + 1 *)
+                         let lim = (let l = zt_of_z (get "limit") in if ZT.gt l (ZT.of_int (k + 1)) then n_of_int (k + 1) else n_of_zt l) in
+                         (match json_provider url_parse (getb "preload") lim (zn (get "passes")) (nat_of_int k) form
+                                  (List.map parse_entity toks) with
+                          | None -> "newerr"
+                          | Some rs -> print_run bld_entry k rs))))
+        else if ptype = "grpc/json" then
+          (match grpc_provider unmarshal (getb "continueonerror") (get "limit") (get "passes") (get "maxammosize") (nat_of_int k) fileb with
+           | None -> "newerr"
+           | Some rs ->
+               let rec pr n = function
+                 | [] -> [if n >= k then "more" else "truncated"]
+                 | PDeliver (t, cl) :: r -> Printf.sprintf "G:%s:%s" (hex_of_bytes t) (hex_of_bytes cl) :: pr (n + 1) r
+                 | PInvalid :: r -> "GI" :: pr (n + 1) r
+                 | PErr0 :: _ -> ["err"]
+                 | PDone :: _ -> ["ok"] in
+               String.concat " " (pr 0 rs))
+        else if scen then
+          (match opt_accept OUint (get "limit"), opt_accept OUint (get "passes"), opt_accept OInt (get "maxammosize") with
+           | Some l, Some ps, Some _ ->
+               (* one scenario of weight 1: every pass delivers one ammo *)
+               let l = zt_of_z l and ps = zt_of_z ps in
+               let kk = ZT.of_int 3 in
+               let bound = List.fold_left (fun b x -> if ZT.sign x > 0 && ZT.lt x b then x else b) (ZT.of_int 1000) [l; ps] in
+               if ZT.lt bound kk then String.concat " " (List.init (ZT.to_int bound) (fun _ -> "S") @ ["ok"])
+               else "S S S more"
+           | _ -> "newerr")
+        else "unknown-provider" in
+      (* specification, independent of the model: a negative number written for limit / passes is rejected *)
+      let neg_dec (v : string) = String.length v > 1 && v.[0] = '-' &&
+        String.for_all (fun ch -> ch >= '0' && ch <= '9') (String.sub v 1 (String.length v - 1)) &&
+        String.exists (fun ch -> ch <> '0' && ch <> '-') v in
+      let neg = List.exists (fun (k, v) -> (k = "limit" || k = "passes") && neg_dec v) opts in
+      let st = status_of obs in
+      let v =
+        if bad_status st then "BAD:" ^ site_of c ^ " outcome " ^ st
+        else if neg && st <> "newerr" then "BAD:" ^ site_of c ^ " negative-limit-or-passes-not-rejected outcome " ^ st
+        else "ok" in
+      (p, v, true)
   | (("pfx" | "trunc" | "badhdr") as kind) :: fmt :: file :: ngood :: toks ->
       let toks = List.filter (fun t -> t <> "") toks in
       let fileb = bytes_of_hex file in
